@@ -1,12 +1,24 @@
 package main
 
-import "fmt"
+import (
+	"fmt"
+	"go/ast"
+	"go/token"
+	"sort"
+)
 
-// ApiClientTables: the numeric constants the model of resolve.APIClient
-// depends on, read from the working tree: the api System number of npm and the
-// VersionType numbers. (String literals of api.go are deliberately not tied:
-// a harmless rewrite of a format string must not break a proof obligation;
-// their effect is observed by the correspondence check.)
+// ApiClientTables: what the model of resolve.APIClient takes from the working
+// tree: the api System number of npm, the VersionType numbers, and the lock
+// discipline around the bundledVersions map. (String literals of api.go are
+// deliberately not tied: a harmless rewrite of a format string must not break
+// a proof obligation; their effect is observed by the correspondence check.)
+//
+// Lock discipline: for every function of api.go that touches the field
+// bundledVersions of a value (reads it, assigns to an element of it, deletes
+// from it), the table lists whether it writes the map and which methods it
+// calls on the field bundledVersionsMu. The function that only creates the map
+// in a composite literal (NewAPIClient) does not select the field and is not
+// listed. Names of functions are not part of any obligation.
 func init() {
 	registerEmitter("ApiClientTables", func() {
 		env := constEnv(parseFile("api/v3/api.pb.go"), parseFile("util/resolve/resolve.go"))
@@ -19,5 +31,85 @@ func init() {
 			must(ok, "constant "+n.goName)
 			fmt.Fprintf(&out, "Definition %s : Z := %s.\n", n.coq, coqZ(v))
 		}
+
+		f := parseFile("util/resolve/api.go")
+		isMapSel := func(e ast.Expr) bool {
+			s, ok := e.(*ast.SelectorExpr)
+			return ok && s.Sel.Name == "bundledVersions"
+		}
+		touchesMap := func(e ast.Expr) bool {
+			found := false
+			ast.Inspect(e, func(n ast.Node) bool {
+				if x, ok := n.(ast.Expr); ok && isMapSel(x) {
+					found = true
+				}
+				return !found
+			})
+			return found
+		}
+		out.WriteString("(* functions of api.go touching the bundledVersions map: (name, writes the map, methods called on bundledVersionsMu) *)\n")
+		out.WriteString("Definition api_map_functions : list (bytes * bool * list bytes) := [")
+		first := true
+		for _, d := range f.Decls {
+			fd, ok := d.(*ast.FuncDecl)
+			if !ok || fd.Body == nil {
+				continue
+			}
+			touches, writes := false, false
+			methods := map[string]bool{}
+			ast.Inspect(fd.Body, func(n ast.Node) bool {
+				switch x := n.(type) {
+				case *ast.SelectorExpr:
+					if x.Sel.Name == "bundledVersions" {
+						touches = true
+					}
+				case *ast.AssignStmt:
+					for _, l := range x.Lhs {
+						if ix, ok := l.(*ast.IndexExpr); ok && touchesMap(ix.X) {
+							writes = true
+						}
+						if isMapSel(l) {
+							writes = true
+						}
+					}
+				case *ast.IncDecStmt:
+					if ix, ok := x.X.(*ast.IndexExpr); ok && touchesMap(ix.X) {
+						writes = true
+					}
+				case *ast.CallExpr:
+					if id, ok := x.Fun.(*ast.Ident); ok && (id.Name == "delete" || id.Name == "clear") && len(x.Args) > 0 && touchesMap(x.Args[0]) {
+						writes = true
+					}
+					if s, ok := x.Fun.(*ast.SelectorExpr); ok {
+						if r, ok := s.X.(*ast.SelectorExpr); ok && r.Sel.Name == "bundledVersionsMu" {
+							methods[s.Sel.Name] = true
+						}
+					}
+				}
+				return true
+			})
+			if !touches {
+				continue
+			}
+			var ms []string
+			for m := range methods {
+				ms = append(ms, m)
+			}
+			sort.Strings(ms)
+			if !first {
+				out.WriteString(";")
+			}
+			first = false
+			fmt.Fprintf(&out, "\n  (%s (* %s *), %v, [", coqBytes(fd.Name.Name), fd.Name.Name, writes)
+			for i, m := range ms {
+				if i > 0 {
+					out.WriteString("; ")
+				}
+				fmt.Fprintf(&out, "%s (* %s *)", coqBytes(m), m)
+			}
+			out.WriteString("])")
+		}
+		out.WriteString("].\n")
+		_ = token.NoPos
 	})
 }
